@@ -138,6 +138,11 @@ Record evaluator := { acc_on : bool;                                            
 (* Evaluator state: (self.y_true, self.y_pred) *)
 Definition estate := (list Z * list Z)%type.
 
+(* Evaluator.step squeezes labels and outputs (`labels.squeeze()`, `outputs.squeeze()`): for a batch of ONE
+   sample this also removes the batch axis, and np.concatenate (BINARY: 0-d arrays) or np.argmax(axis=1)
+   (MULTI_CLASS / CATEGORICAL: 1-d array) raises.  [eval_step] below describes the other batches only. *)
+Definition eval_step_defined (b : ebatch) : bool := negb (Nat.eqb (List.length (outs b)) 1).
+
 Definition eval_step (E : evaluator) (st : estate) (b : ebatch) : estate :=
   (fst st ++ batch_true (emode_of E) b, snd st ++ batch_pred (emode_of E) b).
 
